@@ -135,6 +135,13 @@ def kernel_set(ctx):
                 if name.startswith("sliding_window_") and f.kind in ("classmethod", "staticmethod"):
                     K.setdefault(f.fq, f)
                     why.setdefault(f.fq, "sliding_window_* kernel classmethod")
+        # picklable callable objects (classes defining both __call__ and __reduce__): their instances wrap block
+        # functions and are shipped inside tasks, so their __call__ runs on blocks like any other kernel
+        for c in repo.all_classes():
+            if "__call__" in c.methods and "__reduce__" in c.methods and c.name not in expr_names:
+                f = c.methods["__call__"]
+                K.setdefault(f.fq, f)
+                why.setdefault(f.fq, f"__call__ of the picklable callable {c.name} (instances are placed in tasks)")
         # transitive package callees (exact *call* edges) and nested closures
         work = list(K.values())
         while work:
